@@ -148,8 +148,15 @@ def run_main_cli(model_spec, opts, inputs):
         if len(inputs) == 1:
             sys.stdin = io.StringIO(inputs[0], newline=None)
         else:
+            # FILE arguments are told apart by position, not by name: half of the runs give every
+            # input the same base name in a directory of its own (dev/amr.txt test/amr.txt)
+            same_names = sum(len(t) for t in inputs) % 2 == 0
             for k, text in enumerate(inputs):
-                path = os.path.join(tmpdir, f'in{k}.txt')
+                if same_names:
+                    os.makedirs(os.path.join(tmpdir, f'd{k}'), exist_ok=True)
+                    path = os.path.join(tmpdir, f'd{k}', 'amr.txt')
+                else:
+                    path = os.path.join(tmpdir, f'in{k}.txt')
                 with open(path, 'w', encoding='utf-8', newline='') as fh:
                     fh.write(text)
                 argv.append(path)
